@@ -105,7 +105,8 @@ def run(prog, tier):
             txt = " ".join(U(g.test) for g in guards)
             body_txt = U(fn)
             if law == "exponential":
-                ok = len(floors) == 1 and len(guards) == 1 and _cmp_is(guards[0].test, "Lt", "theta[self.variables]", 0.0)
+                rz_g = Resolver(fn)
+                ok = len(floors) == 1 and len(guards) == 1 and _cmp_is(rz_g.term(guards[0].test, guards[0]), "Lt", "theta[self.variables]", 0.0)
             else:
                 ok = len(floors) == 1 and _uniform_inside(fn)
             obs.append(struct_ob("support-guard", qual(c, fn), ok,
@@ -255,39 +256,19 @@ def _cmp_is(test, opname, left_text, right_const):
 
 
 def _uniform_inside(fn):
-    """`inside = (self.lower <= t) & (t <= self.upper)` with t = theta[self.variables];
-    value returned iff inside.all()."""
-    src = {}
-    for st in fn.body:
-        if isinstance(st, ast.Assign) and len(st.targets) == 1 and isinstance(st.targets[0], ast.Name):
-            src[st.targets[0].id] = st.value
+    """value returned iff ((self.lower <= t) & (t <= self.upper)).all() with t = theta[self.variables] (resolved terms)."""
+    rz = Resolver(fn)
+    th = fn.args.args[1].arg
+    t = f"{th}[self.variables]"
     ifs = [s for s in fn.body if isinstance(s, ast.If)]
     if len(ifs) != 1:
         return False
-    test = ifs[0].test
-    if not (isinstance(test, ast.Call) and isinstance(test.func, ast.Attribute) and test.func.attr == "all"):
-        return False
-    cond = test.func.value
-    if isinstance(cond, ast.Name):
-        cond = src.get(cond.id)
-    if not (isinstance(cond, ast.BinOp) and isinstance(cond.op, ast.BitAnd)):
-        return False
-
-    def text(n):
-        if isinstance(n, ast.Name) and n.id in src:
-            return U(src[n.id])
-        return U(n)
-    sides = []
-    for cmp_ in (cond.left, cond.right):
-        if not (isinstance(cmp_, ast.Compare) and len(cmp_.ops) == 1):
-            return False
-        l, r, op = text(cmp_.left), text(cmp_.comparators[0]), type(cmp_.ops[0]).__name__
-        if op in ("GtE", "Gt"):
-            l, r, op = r, l, {"GtE": "LtE", "Gt": "Lt"}[op]
-        sides.append((l, op, r))
-    want = {("self.lower", "LtE", "theta[self.variables]"), ("theta[self.variables]", "LtE", "self.upper")}
-    in_body = any(isinstance(s, ast.Return) and U(s.value) == "self.normalisation" for s in ifs[0].body)
-    return set(sides) == want and in_body
+    test = rz.term(ifs[0].test, ifs[0])
+    pats = [f"((self.lower <= {t}) & ({t} <= self.upper)).all()", f"(({t} >= self.lower) & ({t} <= self.upper)).all()",
+            f"((self.lower <= {t}) & (self.upper >= {t})).all()", f"(({t} >= self.lower) & (self.upper >= {t})).all()",
+            f"(({t} <= self.upper) & (self.lower <= {t})).all()", f"(({t} <= self.upper) & ({t} >= self.lower)).all()"]
+    in_body = any(isinstance(s, ast.Return) and U(rz.term(s.value, s)) == "self.normalisation" for s in ifs[0].body)
+    return any(pmatch(test, pt) is not None for pt in pats) and in_body
 
 
 def _bounds_match(node, support, call, law):
@@ -297,14 +278,12 @@ def _bounds_match(node, support, call, law):
         # uniform: [(lo, up) for lo, up in zip(self.lower, self.upper)] with the draw's low/high
         low = get_kw(call, "low", 0)
         high = get_kw(call, "high", 1)
-        if isinstance(node, ast.ListComp) and len(node.generators) == 1:
-            g = node.generators[0]
-            if (isinstance(g.iter, ast.Call) and U(g.iter.func) == "zip" and len(g.iter.args) == 2
-                    and U(g.iter.args[0]) == U(low)
-                    and U(g.iter.args[1]) == U(high)
-                    and isinstance(g.target, ast.Tuple) and isinstance(node.elt, ast.Tuple)
-                    and [U(e) for e in node.elt.elts] == [U(e) for e in g.target.elts]):
-                return True, ""
+        holder = ast.parse("def _f(self):\n    return 0\n").body[0]
+        holder.body[0].value = node
+        L_ = Layouts(holder)
+        lay = L_.layout_of(node, holder.body[0])
+        if low is not None and high is not None and lay == (("splice", f"zip({U(low)}, {U(high)})"),):
+            return True, ""
         return False, f"bounds {txt} are not the (low, high) pairs of the draw"
     # constant pair replicated n_params times
     if isinstance(node, ast.BinOp) and isinstance(node.op, ast.Mult) and isinstance(node.left, ast.List) \
@@ -324,34 +303,24 @@ def _combine(prog, ci, c, cfn, attrs):
     and handed to the constructor under their own keyword."""
     out = []
     pname = cfn.args.args[1].arg
-    built = {}      # local name -> attribute it concatenates
     problems = []
-    for st in cfn.body:
-        if isinstance(st, ast.Assign) and len(st.targets) == 1 and isinstance(st.targets[0], ast.Name):
-            v = st.value
-            if isinstance(v, ast.Call) and U(v.func) == "concatenate" and len(v.args) == 1 \
-                    and isinstance(v.args[0], ast.ListComp):
-                lc = v.args[0]
-                g = lc.generators[0]
-                if len(lc.generators) == 1 and not g.ifs and U(g.iter) == pname \
-                        and isinstance(lc.elt, ast.Attribute) and U(lc.elt.value) == U(g.target):
-                    built[st.targets[0].id] = lc.elt.attr
-                else:
-                    problems.append(f"{U(st)} does not iterate `{pname}` in order")
-        elif isinstance(st, ast.For):
-            if U(st.iter) == pname and len(st.body) == 1 and isinstance(st.body[0], ast.Expr):
-                call = st.body[0].value
-                if isinstance(call, ast.Call) and isinstance(call.func, ast.Attribute) and call.func.attr == "extend" \
-                        and isinstance(call.args[0], ast.Attribute) \
-                        and U(call.args[0].value) == U(st.target):
-                    built[U(call.func.value)] = call.args[0].attr
-                    continue
-            problems.append(f"loop at line {st.lineno} does not iterate `{pname}` in order")
-    ret = last_return(cfn)
+    L = Layouts(cfn, prog, c.module, c)
+    rets = L.rz.returns()
     kws = {}
-    if ret is not None and isinstance(ret.value, ast.Call) and U(ret.value.func) == cfn.args.args[0].arg:
-        for k in ret.value.keywords:
-            kws[k.arg] = built.get(U(k.value))
+    if len(rets) == 1 and isinstance(rets[0].value, ast.Call) and U(rets[0].value.func) == cfn.args.args[0].arg:
+        call = L.rz.norm_call(rets[0].value)
+        init_params_ = [a.arg for a in ci.methods["__init__"].args.args[1:]]
+        pairs = list(zip(init_params_, call.args)) + [(k.arg, k.value) for k in call.keywords]
+        for kname, v in pairs:
+            lay = L.layout_of(v, rets[0])
+            attr_ = None
+            if lay is not UNKNOWN and len(lay) == 1 and lay[0][0] == "flat" and lay[0][1] == ("iter", pname) \
+                    and len(lay[0][2]) == 1 and lay[0][2][0][0] == "splice" and lay[0][2][0][1].startswith("va0."):
+                attr_ = lay[0][2][0][1][4:]
+            else:
+                problems.append(f"`{kname}` is {show(lay)}, not a concatenation over `{pname}` in order")
+            kws[kname] = attr_
+    built = dict(kws)
     init = ci.methods["__init__"]
     init_params = [a.arg for a in init.args.args[1:]]
     # constructor keyword -> attribute: parameter p is stored as self.<attr> ; accept p == attr
@@ -509,27 +478,17 @@ def _received_arrays_not_mutated(prog):
 
 
 def _guess_order(c, fn):
-    ok, why = False, ""
-    src = {}
-    for st in fn.body:
-        if isinstance(st, ast.Assign) and len(st.targets) == 1 and isinstance(st.targets[0], ast.Name):
-            src[st.targets[0].id] = st.value
-    ret = last_return(fn)
-    if ret is not None and isinstance(ret.value, ast.Subscript) and isinstance(ret.value.slice, ast.Slice):
-        sl = ret.value.slice
-        base = ret.value.value
-        val = src.get(base.id) if isinstance(base, ast.Name) else base
-        c1 = sl.lower is None and sl.step is None and U(sl.upper) == "n_guesses"
-        c2 = (isinstance(val, ast.Call) and U(val.func) == "sorted"
-              and any(k.arg == "key" and U(k.value) == "self.cost" for k in val.keywords)
-              and not any(k.arg == "reverse" for k in val.keywords))
-        c3 = False
-        if c2 and isinstance(val.args[0], ast.ListComp):
-            lc = val.args[0]
-            c3 = (U(lc.elt) == "self.prior.sample()"
-                  and U(lc.generators[0].iter) == "range(prior_samples)")
-        ok = c1 and c2 and c3
-        why = f"{c1=} {c2=} {c3=}"
+    rz = Resolver(fn)
+    rets = rz.return_terms()
+    n_par = [a.arg for a in fn.args.args[1:]]
+    ok, why = False, f"returned term `{U(rets[0])[:200] if rets else None}`"
+    if len(rets) == 1:
+        for n_g in n_par:
+            for n_s in n_par:
+                for pt in (f"sorted([self.prior.sample() for _ in range({n_s})], key=self.cost)[:{n_g}]",
+                           f"sorted((self.prior.sample() for _ in range({n_s})), key=self.cost)[:{n_g}]"):
+                    if n_g != n_s and pmatch(rets[0], pt) is not None:
+                        ok = True
     return struct_ob("guess-order", qual(c, fn), ok,
                      "initial guesses must be the ascending-cost prefix of the prior draws: " + why,
                      POST, fn.lineno)
